@@ -6,7 +6,7 @@ inside the target resolves to a location outside it.
 Full-strength statement (`C06_unpack_contained`): for every sandbox state `s0` whose target directory `D` exists and
 every tar stream `es`, `Contained D s0 (unpackAll D s0 es).1`.  The unchanged code does not satisfy it
 (`C06_unpack_contained_fails`, DESIGN §6 #37: `symlink.TargetOutsideRoot` is lexical, so `s → /` followed by
-`t → s/..` leaves a link inside the target that the kernel resolves to the target's parent).  Since fix <P6> nothing
+`t → s/..` leaves a link inside the target that the kernel resolves to the target's parent).  Since fix dccd4936 nothing
 is created THROUGH such a link any more: clause 1 ("nothing outside changes") holds for every stream
 (`C06_unpack_outside_unchanged`); only clause 2 ("no link inside resolves outside") keeps the hypothesis.  The theorem in force is `C06_unpack_contained_partial` under the
 decidable hypothesis `noDotDotTargets` (no relative link target has a `..` component); entry NAMES are unrestricted.
@@ -73,7 +73,7 @@ theorem C06_unpack_contained_partial (D : Path) (s0 : FS) (es : List TarEntry)
     Contained D s0 (unpackAll D s0 es).1 :=
   Contained_of_Safe (unpackAll_safe es (goodEntry_of_noDotDot hes) ⟨fun _ _ => rfl, h0, hD⟩)
 
-/-- **C06 (unpack), clause 1 at full strength (since fix <P6>).** For every sandbox state whose target directory `D`
+/-- **C06 (unpack), clause 1 at full strength (since fix dccd4936).** For every sandbox state whose target directory `D`
 exists and EVERY tar stream — no hypothesis on names, link targets, order or types — unpacking creates, modifies and
 deletes nothing outside `D`: every object is placed below a directory whose symlink-evaluated path was tested to be
 inside `D` (regular files, links, directory entries and every level of `mkdirAllInside`), and the clean-up only
@@ -157,7 +157,7 @@ theorem C06_unpack_not_contained : ¬ Contained exD exS0 (unpackAll exD exS0 ex3
     C06_unpack_contained_fails.2.1
   exact absurd this (by decide)
 
-/-- REPAIRED (fix <P6>): through the escaping link nothing is created outside any more — neither the link `t/x` nor the
+/-- REPAIRED (fix dccd4936): through the escaping link nothing is created outside any more — neither the link `t/x` nor the
 directory `t/d` (`mkdirAllInside`, and the link's evaluated parent is tested like a regular file's) -/
 def ex37b : List TarEntry := ex37 ++ [lnk ["t", "x"] false ["y"] "y", reg ["t", "d", "f"] 1]
 example :
